@@ -7,7 +7,9 @@ cd /repo || exit 2
 if ! git diff --quiet; then echo "refusing: /repo has uncommitted changes"; exit 2; fi
 if ! git apply --check "$patch" 2>/dev/null; then echo "patch does not apply"; exit 2; fi
 git apply "$patch"
-trap 'git -C /repo checkout -- . ; git -C /repo clean -fdq tests 2>/dev/null' EXIT
+# evidence written while /repo is patched must not survive: keep the clean-tree evidence aside
+rm -rf /verif/target/evidence.keep; cp -r /verif/evidence /verif/target/evidence.keep
+trap 'git -C /repo checkout -- . ; git -C /repo clean -fdq tests 2>/dev/null; rm -rf /verif/evidence; mv /verif/target/evidence.keep /verif/evidence' EXIT
 suite=$(CARGO_NET_OFFLINE=true cargo test --workspace --no-fail-fast --offline 2>&1 | grep -E '^test result' | head -1)
 echo "SUITE: $suite"
 for id in "$@"; do
